@@ -170,6 +170,21 @@ itself called recursively and functions looked at later included), not through a
 theorem constant_parameters_are_not_changed (p : Prog) (f q : Nat) (h : (analyse p)[f]?.bind (·[q]?) = some true) :
     ¬ Mut p (analyse p) f q := fun hm => sound p f q hm h
 
+/-- **What a flag means, without the pass**: a parameter keeps its flag exactly when it belongs to a function defined in DDP and no
+statement of the body names it as (part of) an assignment target or hands it to a parameter that is not known to be constant.
+A flag is cleared only for a reason one can point at; `constant_parameters_are_not_changed` says the reasons suffice. -/
+theorem constant_flag_characterised (known : Nat → Option Flags) (self : Nat) (fn : Fn) (q : Nat) :
+    (analyseFn known self fn)[q]? = some true ↔
+      (q < fn.nparams ∧ fn.extern = false ∧ ∀ s ∈ fn.body, marks known self q s = false) :=
+  flag_iff known self fn q
+
+/-- the pass is flow-insensitive: the flags do not depend on the order of the statements of a body (nor, therefore, on which
+branch a statement stands in) -/
+theorem constant_flags_ignore_statement_order (known : Nat → Option Flags) (self : Nat) (fn fn' : Fn)
+    (hn : fn.nparams = fn'.nparams) (he : fn.extern = fn'.extern) (hp : fn.body.Perm fn'.body) (q : Nat) :
+    ((analyseFn known self fn)[q]? = some true) ↔ ((analyseFn known self fn')[q]? = some true) :=
+  analyseFn_perm known self fn fn' hn he hp q
+
 /-- the function of seed observation C08f: `h r v n` with `r` a Referenz parameter changed *after* the recursive call
 `h v v 1` in the text -/
 def rekursion : Prog :=
